@@ -310,6 +310,34 @@ def run(tier):
             ck.finding("R1b.canonicaliser-roundtrip", "R1b.canonicaliser-roundtrip/" + p, F.short_span(f.span),
                        "`%s` accepts any text that parses as u32 as an array index without printing it back: '007' becomes index 7, so `obj['007']` and `obj[7]` collide and sibling canonicalisers disagree" % p)
 
+    # R1c: the consumer side of the invariant.  A `PropertyKey::String` is never an index, so code that meets one must not try to read an
+    # index out of it: an integer parse of the text accepts what the canonicaliser refused ("01", "+1", "4294967296").
+    ck.rule("R1c.no-reparse-of-string-keys", "no arm for PropertyKey::String parses the key's text as an integer (a string key is never an array index)", floor=20)
+    n1c = 0
+    for p1, f1 in sorted(fx.fns.items()):
+        if f1.derived:
+            continue
+        for b1, en1, pl1, arms1, other1, rest1 in M.enum_switches(fx, f1):
+            if en1 != PK or "String" not in arms1:
+                continue
+            n1c += 1
+            tgt1 = arms1["String"]
+            bad1 = []
+            if all(q == b1 for q in f1.preds()[tgt1]):
+                reg1 = M.dominated_region(f1, tgt1)
+                for b2, t1 in f1.calls():
+                    d1 = t1[1].get("d") or ""
+                    targs1 = [fx.tys(x) for x in t1[1].get("targs", [])]
+                    if b2 in reg1 and d1.endswith(("str::<impl str>::parse", "JsString::parse")) and targs1 and targs1[0] in ("usize", "u32", "u64", "i32", "i64", "isize", "u16", "u8"):
+                        bad1.append((t1, targs1[0]))
+            ck.instance("R1c.no-reparse-of-string-keys", "%s: String arm" % f1.path, F.short_span(f1.blocks[b1]["t"][-1]) if isinstance(f1.blocks[b1]["t"][-1], str) else None, ok=not bad1,
+                        nontrivial=bool(bad1))
+            for t1, ty1 in bad1:
+                ck.finding("R1c.no-reparse-of-string-keys", "R1c.no-reparse-of-string-keys/%s" % (f1.parent if f1.closure else f1.path), F.short_span(t1[6]),
+                           "`%s` parses the text of a PropertyKey::String as %s: canonical indices arrive as PropertyKey::Index, so what parses here is a non-canonical "
+                           "spelling - `[10,20].hasOwnProperty(\"01\")` is true and `Object.defineProperty(arr, \"01\", {value: 5})` overwrites element 1" % (f1.path, ty1))
+    ck.anchor(n1c >= 20, "matches on PropertyKey with a String arm (found %d)" % n1c)
+
     # ---------------- R2
     ck.rule("R2.json-cycle-refusal", "the JSON exporter's recursion is dominated by the visited-set test and undone on exit", floor=1)
     ex = fx.fns.get("interpreter::builtins::json::js_value_to_json_with_visited")
